@@ -325,13 +325,16 @@ pub fn run(g: &mut Global) {
     // steps, compared bit for bit at every step (a process-wide counter or cache shared between instances
     // would hit exactly one of them at some count)
     let seed = g.seed;
+    let thorough = g.tier == Tier::Thorough;
     g.exhaustive(
         "twins_long",
         22,
         &move |i| {
             let kind = ALL_KINDS[i as usize];
             let heavy = matches!(kind, Kind::Mad | Kind::Cci | Kind::Er);
-            TwinCase { cfg: cfg_small(kind, if heavy { 3 } else { [3usize, 20, 5][(i % 3) as usize] }), seed: seed ^ (i + 1).wrapping_mul(0x9E3779B97F4A7C15), len: (1usize << 24) + 3000 }
+            let cheap = matches!(kind, Kind::Sma | Kind::Ema | Kind::Wma | Kind::Sd | Kind::Min | Kind::Max | Kind::Rsi | Kind::Mfi | Kind::Roc | Kind::Tr);
+            let len = if cheap || thorough { (1usize << 24) + 3000 } else { (1usize << 20) + 3000 };
+            TwinCase { cfg: cfg_small(kind, if heavy { 3 } else { [3usize, 20, 5][(i % 3) as usize] }), seed: seed ^ (i + 1).wrapping_mul(0x9E3779B97F4A7C15), len }
         },
         &check_twins,
     );
